@@ -16,6 +16,24 @@
 using namespace ArduinoJson;
 using ref::Val;
 
+// a writer that takes only `budget` bytes in total (a full device): whatever it refuses is not counted
+struct BudgetWriter {
+  std::string out;
+  size_t budget;
+  explicit BudgetWriter(size_t b) : budget(b) {}
+  size_t write(uint8_t c) {
+    if (out.size() >= budget) return 0;
+    out += (char)c;
+    return 1;
+  }
+  size_t write(const uint8_t* s, size_t n) {
+    size_t room = budget - out.size();
+    if (n > room) n = room;
+    out.append(reinterpret_cast<const char*>(s), n);
+    return n;
+  }
+};
+
 struct CustomWriter {
   std::string out;
   size_t calls1 = 0, callsN = 0;
@@ -185,6 +203,30 @@ static std::string check_destinations(cs::Ctx& ctx, cs::Src& s, JsonVariantConst
     CustomWriter w;
     size_t r = PRETTY ? serializeJsonPretty(v, w) : serializeJson(v, w);
     if (w.out != T || r != T.size()) ctx.fail("custom-writer", std::string(tag) + ": custom writer received different bytes or count");
+  }
+  {
+    // the count is what the destination reports to have taken
+    size_t budget = (size_t)s.below(T.size() + 3);
+    BudgetWriter w(budget);
+    size_t r = PRETTY ? serializeJsonPretty(v, w) : serializeJson(v, w);
+    size_t want = budget < T.size() ? budget : T.size();
+    if (w.out != T.substr(0, want) || r != want)
+      ctx.fail("custom-writer", std::string(tag) + ": writer with a budget of " + std::to_string(budget) + " bytes holds " + std::to_string(w.out.size()) + " bytes, returned count " + std::to_string(r) + ", expected " + std::to_string(want));
+  }
+  if (!PRETTY) {
+    // unbound sources serialize as null and measure accordingly
+    JsonVariantConst uv;
+    JsonArrayConst ua;
+    JsonObjectConst uo;
+    std::string t1, t2, t3;
+    if (serializeJson(uv, t1) != 4 || t1 != "null" || measureJson(uv) != 4 || measureJsonPretty(uv) != 4) ctx.fail("unbound-source", "unbound JsonVariantConst does not serialize/measure as null");
+    if (serializeJson(ua, t2) != measureJson(ua) || serializeJsonPretty(ua, t3) != measureJsonPretty(ua)) ctx.fail("unbound-source", "unbound JsonArrayConst: measure disagrees with serialize");
+    t2.clear();
+    t3.clear();
+    if (serializeJson(uo, t2) != measureJson(uo) || serializeJsonPretty(uo, t3) != measureJsonPretty(uo)) ctx.fail("unbound-source", "unbound JsonObjectConst: measure disagrees with serialize");
+    JsonVariantConst missing = v["\x01no such member"][7];
+    t2.clear();
+    if (serializeJson(missing, t2) != measureJson(missing) || t2 != "null" || measureMsgPack(missing) != 1) ctx.fail("unbound-source", "missing member: measure disagrees with serialize");
   }
 #if ARDUINOJSON_ENABLE_ARDUINO_PRINT
   {
